@@ -87,6 +87,17 @@ def run(ctx: Ctx) -> None:
              "passed as that parameter, and test / training settings are "
              "not mixed in one call")
     _callers(ctx, ro)
+    # the model of run_ode follows rows and columns that are addressed on
+    # the result matrix or on one row view of it, with the constant column
+    # positions 0:n, n:-1 and -1.  A function that addresses them otherwise
+    # is outside of what the model recognises: its protocol obligations are
+    # then undecided, not refuted.
+    why = _unfamiliar(ro)
+    if why:
+        for o in ctx.obligations:
+            if not o.ok and o.function == ro.qualname and \
+                    "not recognised" not in (o.detail or ""):
+                o.detail = ((o.detail or "") + " - not recognised: " + why)
 
 
 
@@ -353,7 +364,8 @@ def _is_ok_rule(ctx: Ctx) -> None:
     from sa.checks.c20 import _truth
     from sa.pathinline import paths
     repo = ctx.repo
-    fi = repo.func(MOD, "_is_ok")
+    from sa.srcmodel import elementwise
+    fi = elementwise(repo.func(MOD, "_is_ok"))
     body = func_body(fi)
     loop = next((s for s in body if isinstance(s, ast.For)), None)
     ok = False
@@ -556,3 +568,45 @@ def _failure_row(ctx: Ctx, ro: FuncInfo) -> None:
            "a successful result has `steps` rows of n + controller_dim + 1 "
            "cells, the last column being linspace(0, max_time, steps)",
            construct="time column and shape")
+
+
+
+def _unfamiliar(ro: FuncInfo) -> str:
+    """Why the row / column addressing of run_ode is outside the model."""
+    binds: dict[str, list[ast.expr]] = {}
+    for st in ast.walk(ro.node):
+        if isinstance(st, (ast.Assign, ast.AnnAssign)) and getattr(
+                st, "value", None) is not None:
+            for tg in (st.targets if isinstance(st, ast.Assign)
+                       else [st.target]):
+                if isinstance(tg, ast.Name):
+                    binds.setdefault(tg.id, []).append(st.value)
+    views = {k for k, vs in binds.items()
+             if any(isinstance(v, ast.Subscript) for v in vs)}
+    for k, vs in binds.items():
+        for v in vs:
+            if isinstance(v, ast.Subscript) and isinstance(
+                    v.value, ast.Name) and v.value.id in views and \
+                    isinstance(v.slice, ast.Slice):
+                return (f"`{k} = {ast.unparse(v)}` is a view of the view "
+                        f"`{v.value.id}`")
+    for sb in ast.walk(ro.node):
+        if isinstance(sb, ast.Subscript) and isinstance(
+                sb.value, ast.Name) and sb.value.id in views:
+            idx = sb.slice.elts[-1] if isinstance(
+                sb.slice, ast.Tuple) else sb.slice
+            if isinstance(idx, ast.Name) and idx.id in binds and any(
+                    isinstance(b, ast.BinOp) for b in binds[idx.id]):
+                return (f"`{ast.unparse(sb)}` addresses a column through "
+                        f"the computed index `{idx.id}`")
+    for lp in ast.walk(ro.node):
+        if isinstance(lp, ast.For) and isinstance(
+                lp.iter, ast.Call) and ast.unparse(
+                lp.iter.func) == "range" and any(
+                isinstance(b, ast.Assign) and isinstance(
+                    b.value, ast.Subscript) and isinstance(
+                    b.value.slice, ast.Name) and isinstance(
+                    lp.target, ast.Name)
+                and b.value.slice.id == lp.target.id for b in lp.body):
+            return "the rows are visited through an index loop"
+    return ""
